@@ -575,6 +575,108 @@ func c15PingDuringMessage(c *h.Ctx, server bool) {
 	c.Case("ping-during-message/"+roleStr(server), in, true)
 }
 
+// deadlineConn: an in-memory transport that HONOURS the write deadline like a TCP connection or net.Pipe does — a
+// Write after the armed deadline has passed fails with a timeout and puts nothing on the wire.
+type deadlineConn struct {
+	*wsFake
+	dmu sync.Mutex
+	dl  time.Time
+}
+
+type c15TimeoutErr struct{}
+
+func (c15TimeoutErr) Error() string   { return "i/o timeout" }
+func (c15TimeoutErr) Timeout() bool   { return true }
+func (c15TimeoutErr) Temporary() bool { return true }
+
+func (c *deadlineConn) SetWriteDeadline(t time.Time) error {
+	c.dmu.Lock()
+	c.dl = t
+	c.dmu.Unlock()
+	return nil
+}
+func (c *deadlineConn) Write(p []byte) (int, error) {
+	c.dmu.Lock()
+	dl := c.dl
+	c.dmu.Unlock()
+	if !dl.IsZero() && time.Now().After(dl) {
+		return 0, c15TimeoutErr{}
+	}
+	return c.wsFake.Write(p)
+}
+
+// c15Deadlines: each write is governed by ITS OWN deadline. A control frame sent with a short deadline (an
+// application ping; the automatic pong and close replies use now+1s) must not leave that deadline armed for the
+// data writer that comes next and whose own deadline (none, or a later one set before the first message) has not
+// changed; and after the Close frame every later write is refused with the close-sent error.
+func c15Deadlines(c *h.Ctx, server bool, dataDeadline time.Duration) {
+	// the ping's own deadline can only pass before it is written if this process is stalled for 300 ms: then the
+	// scenario was not established and is tried again (never reported)
+	for attempt := 0; attempt < 4; attempt++ {
+		if c15DeadlinesOnce(c, server, dataDeadline) {
+			return
+		}
+	}
+	c.Note("C15 deadlines scenario could not be established (process stalled > 300 ms four times)")
+}
+
+func c15DeadlinesOnce(c *h.Ctx, server bool, dataDeadline time.Duration) bool {
+	in := fmt.Sprintf("wsconc deadlines role=%s data-deadline=%v: WriteMessage; WriteControl(Ping, 300ms); wait 400ms; WriteMessage; WriteControl(Close); WriteMessage", roleStr(server), dataDeadline)
+	tr := &deadlineConn{wsFake: newWsFake(nil)}
+	conn := ws.VerifNewConn(tr, server, 0, c15B, false)
+	d1, d2 := c15DataPayload(40), c15DataPayload(c15B+30)
+	var afterClose error
+	res := h.Safe(func() string {
+		if dataDeadline > 0 {
+			conn.SetWriteDeadline(time.Now().Add(dataDeadline)) // set ONCE, as an application with a session deadline does
+		}
+		if err := conn.WriteMessage(ws.BinaryMessage, d1); err != nil {
+			return "WriteMessage 1: " + err.Error()
+		}
+		if err := conn.WriteControl(ws.PingMessage, []byte("p"), time.Now().Add(300*time.Millisecond)); err != nil {
+			return "not-established"
+		}
+		time.Sleep(400 * time.Millisecond)
+		if err := conn.WriteMessage(ws.BinaryMessage, d2); err != nil {
+			return "WriteMessage 2 (its own deadline has not passed): " + err.Error()
+		}
+		if err := conn.WriteControl(ws.CloseMessage, ws.FormatCloseMessage(1000, ""), time.Now().Add(time.Second)); err != nil {
+			return "WriteControl(Close): " + err.Error()
+		}
+		afterClose = conn.WriteMessage(ws.BinaryMessage, d1)
+		return "ok"
+	})
+	if res == "not-established" {
+		return false
+	}
+	c.Hold(res == "ok", "C15.deadline_of_a_control_frame_does_not_outlive_it", in, res, "ok")
+	c.Hold(res != "ok" || afterClose == ws.ErrCloseSent, "after_close.nothing_follows", in, fmt.Sprint(afterClose), "ErrCloseSent")
+	rep := c.O.Call("ws.parse", roleStr(server), "0", h.Hex(tr.Written()))
+	okWire := strings.HasPrefix(rep, "ok ")
+	var msgs [][]byte
+	var cur []byte
+	nclose, last := 0, -1
+	if okWire {
+		for i, f := range wsParseFrames(rep[3:]) {
+			switch {
+			case f.Op <= 2:
+				cur = append(cur, h.UnHex(f.Payload)...)
+				if f.Fin {
+					msgs, cur = append(msgs, cur), nil
+				}
+			case f.Op == 8:
+				nclose++
+			}
+			last = i
+			_ = last
+		}
+	}
+	whole := okWire && len(msgs) == 2 && bytes.Equal(msgs[0], d1) && bytes.Equal(msgs[1], d2) && nclose == 1
+	c.Hold(res != "ok" || whole, "C15_wire.deadlines", in, h.Trunc(rep, 300), "two intact messages, a ping between them, one Close, nothing after it")
+	c.Case(fmt.Sprintf("deadlines/%s/data-deadline=%v", roleStr(server), dataDeadline), in, true)
+	return true
+}
+
 func c15(c *h.Ctx) {
 	r := c.R
 	for _, server := range []bool{true, false} {
@@ -582,6 +684,8 @@ func c15(c *h.Ctx) {
 			c15Timeout(c, server, nframes, server)
 		}
 		c15PingDuringMessage(c, server)
+		c15Deadlines(c, server, 0)
+		c15Deadlines(c, server, 5*time.Second)
 	}
 	kinds := []string{"ping", "pong", "close", "xclose", "xclose-partial"}
 	run := 0
